@@ -187,9 +187,8 @@ impl<'a> Dfa<'a> {
                         w.remove(idx);
                         w.push(i);
                         w.push(d);
-                    } else if i.len() <= d.len() {
-                        w.push(i);
                     } else {
+                        w.push(i);
                         w.push(d);
                     }
                 }
@@ -217,8 +216,8 @@ impl<'a> Dfa<'a> {
                 let edge = self.graph.find_edge(parent_state, state).unwrap();
                 let grapheme = self.graph.edge_weight(edge).unwrap();
                 if grapheme.chars() == label.chars()
-                    && (grapheme.maximum() == label.maximum()
-                        || grapheme.minimum() == label.minimum())
+                    && grapheme.minimum() <= label.minimum()
+                    && label.maximum() <= grapheme.maximum()
                 {
                     x.insert(parent_state);
                     break;
